@@ -135,13 +135,13 @@ def run(ctx):
                        "event sequences")
     ctx.assumptions += ["tags that spell the current (id, serial) differently (leading zeros, upper case) are not generated (DESIGN.md 9)"]
     if ctx.tier == "quick":
-        st = R.standard(ctx, [R.Plan("qr", "S_q1", emit_mod=120, max_inst=2, max_pw=1, stray=1, also=R.crowd_also(250)),
+        st = R.standard(ctx, [R.Plan("qr", "S_q1", emit_mod=120, max_inst=2, max_pw=1, stray=1, also=R.crowd_also(250) + R.wrap_also(8)),
                               # one service name is a prefix of the other; an entry with an unknown protocol word
                               R.Plan("pref", "S_pref", emit_mod=200, max_inst=1, max_pw=2, stray=1)], OWN,
                         need=("replies", "accept_D", "accept_R"))
         n = differential(ctx, "dq", "S_t1d", nb=350, per=1, max_inst=1, max_pw=2, emit_mod=20, stray=1)
     else:
-        st = R.standard(ctx, [R.Plan("qr", "S_q1", emit_mod=60, max_inst=2, max_pw=1, stray=2, also=R.crowd_also(1500)),
+        st = R.standard(ctx, [R.Plan("qr", "S_q1", emit_mod=60, max_inst=2, max_pw=1, stray=2, also=R.crowd_also(1500) + R.wrap_also(60)),
                               R.Plan("qr3", "S_t1d", emit_mod=20, max_inst=3, max_pw=1, stray=2),
                               R.Plan("two", "S_t1d", emit_mod=40, ids="Ids2", max_inst=1, max_pw=0, pw_on=False, stray=1),
                               R.Plan("pref", "S_pref", emit_mod=25, max_inst=1, max_pw=2, stray=2),
